@@ -95,4 +95,31 @@ PROPS = {
         ],
         "trusted_base": ["vendored thrift compact/binary protocol writers and the generated ttypes.go are modelled by hand (Tally/Model/Thrift.lean) and tied by byte-for-byte differential only"],
     },
+    "C07": {
+        "suites": ["c07lock", "c07conc", "scope-c07seq"],
+        "assumptions": COMMON_ASSUME + [
+            "Model.Registry models one shard, identities without sanitizer aliasing and one counter per scope (aliasing is sequential and covered by Model.Scope / scope-c07seq; counters of one scope do not interact)",
+            "lock-protected regions without a schedule point are single atomic steps; Go's RWMutex gives mutual exclusion and no lock is taken recursively",
+            "the order in which a pass walks a shard (Go map iteration) is observed, not predicted",
+        ],
+        "trusted_base": ["cooperative scheduler on the verif yield hooks; the model supplies which threads can run without blocking"],
+        "timeout": {"quick": 400, "thorough": 3600},
+    },
+    "C08": {
+        "suites": ["c08conc"],
+        "assumptions": COMMON_ASSUME + [
+            "'the reporting goroutine has ended' is observed by a goroutine dump after Close returned",
+            "a second Close call that overlaps the first returns nil before the first has finished (known finding D5b if exhibited); the barrier is claimed for the winning caller",
+        ],
+        "trusted_base": ["cooperative scheduler adopting the real report-loop goroutine at its first hook; free-running stress with a 20-200us ticker"],
+        "timeout": {"quick": 400, "thorough": 3600},
+    },
+    "C09": {
+        "suites": ["c09"],
+        "assumptions": COMMON_ASSUME + [
+            "data-race freedom in the sense of the Go memory model is not expressible in the interleaving model; it is supported by -race runs only",
+            "a parked thread holds no lock between the read-locked probe and the write lock (tie facts)",
+        ],
+        "trusted_base": ["cooperative scheduler on the verif yield hooks"],
+    },
 }
